@@ -8,8 +8,7 @@ MANIFEST = dict(
          'mentions user types reachable from the type it formats; for a well-formed API every reference of every '
          'declaration is a builtin, declared in the output or imported into that file; every struct, union and (TypeScript) '
          'alias is declared exactly once with every field and tag at its mapped type; optional markers (JSDoc: iff '
-         'nullable; TypeScript: iff top-level nullable or defaulted, equal to the specification when no alias hides a '
-         'nullable); one js_client function / tsd_client method per route version with url ns/route[_vN], arg or '
+         'nullable; TypeScript: iff nullable - also behind aliases - or defaulted); one js_client function / tsd_client method per route version with url ns/route[_vN], arg or '
          'null, attribute values in schema order. Tied to the code by a translator (type-name tables, format strings), by '
          'differential runs of the real backends (declaration scanners for .d.ts and JSDoc, node evaluation harness) '
          'against the compiled model, and by an independent reference reading of the IR as direct oracle.',
